@@ -757,3 +757,106 @@ def buffer_sum_facts(F, v):
             out.append(op('ge', ('in', a), lit(0.0)))
             out.append(op('ge', ('in', a), ('front', ('in', q))))
     return out
+
+
+_extfacts = {}
+
+
+def extremum_facts(F, v):
+    """Derived facts  m <= r <= M  for a view whose cells m / M are verified window extrema (Flow.extremum: fresh, complete
+    rescan, newest value covered) and whose cell r is a register that is assigned the newest value on every delivering step:
+    r is an element of the window m and M are extrema of."""
+    key = (id(F), v.name)
+    if key in _extfacts:
+        return _extfacts[key]
+    out = []
+    _extfacts[key] = out
+    try:
+        fl = flow(F, v)
+    except Exception:
+        return out
+    if not fl.queues:
+        return out
+    vs = {info['V'] for info in fl.queues.values() if info['V'] is not None}
+    mins, maxs, regs = [], [], []
+    for cell in float_cells(fl):
+        if cell in fl.B.buffers:
+            continue
+        t = fl.m.up_fields.get(cell)
+        if t is None:
+            continue
+        try:
+            cs = fl.cell_cases(cell, deep=False)
+        except OverflowError:
+            continue
+        deliv = [leaf for conds, leaf in cs if fl.delivering(conds)]
+        if deliv and all((l[1] if l[0] == 'some' else l) in vs for l in deliv):
+            regs.append(cell)
+            continue
+        if not any(x[0] in ('fold', 'reduce') for x in subterms(t)):
+            continue
+        try:
+            kind, ok, detail = fl.extremum(cell)
+        except Exception:
+            continue
+        if ok and kind == 'min':
+            mins.append(cell)
+        elif ok and kind == 'max':
+            maxs.append(cell)
+    for r in regs:
+        for m_ in mins:
+            out.append(op('le', ('in', m_), ('in', r)))
+        for M_ in maxs:
+            out.append(op('le', ('in', r), ('in', M_)))
+    return out
+
+
+_crossfacts = {}
+
+
+def cross_term_facts(F, v):
+    """Derived fact  s >= 0  for a zero-initialised cell whose every update is  s := s + (x − a)(x − b)  with b the one-step mean
+    update a + (x − a)/k of a: b lies between a and x, so the two factors have the same sign (also in floating point)."""
+    key = (id(F), v.name)
+    if key in _crossfacts:
+        return _crossfacts[key]
+    out = []
+    _crossfacts[key] = out
+    m = model(F, v)
+    from .terms import nondelivering
+    inits = m.inits()
+    for cell, t in m.up_fields.items():
+        good = True
+        seen = 0
+        for ex in m.up_exits:
+            val = ex.fields.get(cell, ('in', cell))
+            if val == ('in', cell):
+                continue
+            if nondelivering(ex.pc):
+                good = False
+                break
+            st = signed_terms(val)
+            selfs = [x for x in st if x[1] == ('in', cell)]
+            rest = [x for x in st if x[1] != ('in', cell)]
+            if len(selfs) != 1 or selfs[0][0] != 1 or len(rest) != 1 or rest[0][0] != 1:
+                good = False
+                break
+            p_ = rest[0][1]
+            if not (p_[0] == 'op' and p_[1] == 'mul' and all(f[0] == 'op' and f[1] == 'sub' for f in p_[2]) and p_[2][0][2][0] == p_[2][1][2][0]):
+                good = False
+                break
+            X = p_[2][0][2][0]
+            a, b = p_[2][0][2][1], p_[2][1][2][1]
+
+            def one_step(A, B):
+                if not (B[0] == 'op' and B[1] == 'add' and len(B[2]) == 2):
+                    return False
+                return any(a_ == A and d_[0] == 'op' and d_[1] == 'div' and d_[2][0] == op('sub', X, A) and d_[2][1][0] == 'op' and d_[2][1][1] == 'from_int'
+                           for a_, d_ in ((B[2][0], B[2][1]), (B[2][1], B[2][0])))
+            if not (one_step(a, b) or one_step(b, a)):
+                good = False
+                break
+            seen += 1
+        if good and seen and inits and all((init.get(cell) or ('?',))[0] == 'lit' and init.get(cell)[1] == 0 for nm, init, pre in inits):
+            out.append(op('ge', ('in', cell), lit(0.0)))
+    return out
